@@ -34,6 +34,8 @@ def run(ctx: Ctx) -> None:
                       "mix": "adv" if wk.get("dry") else ["builtin", "builtin+adv", "adv+builtin", "builtin"][k % 4], "weight": 1})
         if wk.get("dry"):
             items[-1].update({"kinds": ["Reposition", "Reposition", "DispatchBase", "DispatchStation", "Idle"], "p_instr": 0.7})
+        if k % 9 == 4:
+            items[-1]["rerun"] = True      # once more into the same output directory
     files = core.produce(ctx, items)
     cfg = ctx.work / "HiveEvents.cfg"
     cfg.write_text("SPECIFICATION TraceSpec\nPOSTCONDITION Done\nCHECK_DEADLOCK FALSE\n")
